@@ -59,6 +59,8 @@ def run_one(pid, name, mut, tier, baseline):
             if t.returncode != 0:
                 res["baseline_tail"] = t.stdout[-600:]
         env["VERIF_REPO"] = wt
+        if "_" in pid:
+            env["VERIF_UNITS"] = "^" + pid.split("_", 1)[1]
         t0 = time.time()
         c = subprocess.run([os.path.join(VERIF, "check"), pid.split("_")[0], tier], cwd=VERIF, env=env, capture_output=True, text=True)
         res["exit"] = c.returncode
